@@ -69,6 +69,12 @@ def replay_case(item):
             links.append(rows)
         elif v['source'] == 'sources' and rows:
             links.append(DF.sources(rows))
+        elif v['source'] == 'load' and rows:
+            import tempfile
+            tmpd = tempfile.mkdtemp(prefix='c16l-', dir=tlc.WORK_ROOT)
+            with open(os.path.join(tmpd, 'appended.csv'), 'w') as f:
+                f.write('a,b\n' + ''.join('%d,%d\n' % (r_['a'], r_['b']) for r_ in rows))
+            links.append(DF.load(os.path.join(tmpd, 'appended.csv'), name='appended', cast_strategy=DF.load.CAST_WITH_SCHEMA))
         else:
             links.append(tuple_source([('appended', [('a', 'integer'), ('b', 'integer')], rows)]))
     drop = v.get('then_delete')
@@ -86,6 +92,10 @@ def replay_case(item):
             desc = ds.dp.descriptor['resources']
     except Exception as e:
         return dict(ok=False, why='raised %s: %s' % (type(e).__name__, str(e)[:200]))
+    finally:
+        if 'tmpd' in locals():
+            import shutil
+            shutil.rmtree(tmpd, ignore_errors=True)
     got_names = [r['name'] for r in desc]
     if drop is not None:
         keep = [i for i, x in enumerate(c['names']) if x != drop]
@@ -271,7 +281,7 @@ def run():
         cases = cases[:2500]
     items = []
     for c in cases + big:
-        items.append(dict(case=c, variant=dict(batch=r.choice([1, 2, 1000]), mutate=r.random() < 0.5, source=r.choice(['iterable', 'tuple', 'sources']))))
+        items.append(dict(case=c, variant=dict(batch=r.choice([1, 2, 1000]), mutate=r.random() < 0.5, source=r.choice(['iterable', 'tuple', 'sources', 'load']))))
     # two-step programs: the restructuring step followed by a delete_resource of one of its outputs
     for c in (cases + big):
         if c['op'] == 'duplicate' and r.random() < (0.3 if t == 'quick' else 1.0):
